@@ -92,7 +92,7 @@ def _case(draw):
 
 class C07:
     id = "C07"
-    cases = {"quick": 2000, "thorough": 60000}
+    cases = {"quick": 1200, "thorough": 60000}
     rule = ("one definition (plain, annotated, tuple destructuring, function parameter, function local, class field reached through "
             "self in a method with self / fin self, class field reached through a mutable / fin receiver variable, fin class body "
             "field, fin class argument, or no definition at all), drawn fin or mutable, then one assignment (:=, +=, -=, *=) to it at "
